@@ -278,10 +278,13 @@ def audit_property(prop: str) -> dict[str, Any]:
     return res
 
 
-def pin_statements() -> None:
-    out = {}
+def pin_statements(only: Sequence[str] = ()) -> None:
+    """Record the theorem statements of Properties/*.v (only the named ones when given)."""
+    f = VERIF / "harness" / "statements.json"
+    out = json.loads(f.read_text()) if (only and f.exists()) else {}
     for p in sorted((THEORIES / "Properties").glob("C*.v")):
-        out[p.stem] = property_statements(p.stem)
+        if not only or p.stem in only:
+            out[p.stem] = property_statements(p.stem)
     (VERIF / "harness" / "statements.json").write_text(json.dumps(out, indent=1, sort_keys=True) + "\n")
 
 
